@@ -711,7 +711,15 @@ func TestVerif_C07_DocLedger(t *testing.T) {
 	rec := &vC07RecStore{DataStore: db.sequences.datastore}
 	db.sequences.mutex.Lock()
 	db.sequences.datastore = rec
+	db.sequences.releaseSequenceWait = 1000 * time.Hour // the remainder is released explicitly at scenario boundaries
 	db.sequences.mutex.Unlock()
+	// a fresh reserve makes the release monitor re-arm its timer with the long wait
+	db.sequences.releaseUnusedSequences(ctx)
+	if s0, err := db.sequences.nextSequence(ctx); err != nil {
+		t.Fatalf("VERIF-FATAL C07 nextSequence: %v", err)
+	} else if err := db.sequences.releaseSequence(ctx, s0); err != nil {
+		t.Fatalf("VERIF-FATAL C07 releaseSequence: %v", err)
+	}
 	keys := db.MetadataKeys
 	run := &vC07Run{keys: keys}
 
